@@ -190,6 +190,7 @@ func (c *Ctx) query(assumes []string, goal string, negateGoal bool, logicOpts st
 	}
 	sort.Slice(list, func(i, j int) bool { return list[i].idx < list[j].idx })
 	var b strings.Builder
+	b.WriteString("(set-logic ALL)\n")
 	b.WriteString(prelude)
 	for _, s := range list {
 		b.WriteString(s.decl)
